@@ -1,6 +1,8 @@
 package eng
 
 import (
+	"go/constant"
+	"os"
 	"fmt"
 	"go/token"
 	"go/types"
@@ -87,6 +89,19 @@ func analyseDeterminism(as AnalysisSpec, progs []*Program, cs *Contracts, funcs 
 							}
 							if (forbidden[name] || (sc.Pkg != nil && forbidden[sc.Pkg.Pkg.Path()+".*"])) && !strings.Contains(","+as.Args["allow_forbidden"]+",", ","+name+"@"+key+",") {
 								det.Result, det.Why = "failed", "call to "+name+" at "+p.Pos(x.Pos())+" in "+key
+							}
+							if name == "os.OpenFile" && len(x.Call.Args) >= 2 {
+								// an output file must not keep bytes from an earlier run: opened truncating,
+								// unless the site is declared to reopen a file created earlier in the same run
+								trunc := false
+								if c, ok := x.Call.Args[1].(*ssa.Const); ok && c.Value != nil {
+									if v, ok := constant.Int64Val(c.Value); ok && v&int64(os.O_TRUNC) != 0 {
+										trunc = true
+									}
+								}
+								if !trunc && !strings.Contains(","+as.Args["allow_open_existing"]+",", ","+key+",") {
+									det.Result, det.Why = "failed", "os.OpenFile without O_TRUNC at "+p.Pos(x.Pos())+" in "+key+" (content of an existing file can survive into the output)"
+								}
 							}
 						}
 					case *ssa.Convert:
